@@ -709,5 +709,32 @@ theorem concat0_spec (a : ND α) (rest : List (ND α)) {t : List Nat}
   · simp only [shape_ofFn, hd0, List.set_cons_zero, valid_cons_cons]
     exact ⟨offset_add_lt _ hk' hi', hx⟩
 
+theorem concat0_ok_shapes {a c : ND α} {rest : List (ND α)} (h : concat (a :: rest) 0 = .ok c) :
+    0 < a.shape.length ∧ ∀ b ∈ rest, b.shape.eraseIdx 0 = a.shape.eraseIdx 0 ∧ b.shape.length = a.shape.length := by
+  simp only [concat] at h
+  split at h
+  · rename_i hc
+    refine ⟨hc.1, ?_⟩
+    have := hc.2
+    simp only [List.all_eq_true, Bool.and_eq_true, beq_iff_eq] at this
+    exact this
+  · cases h
+
+/-- decode a position along the joined axis -/
+theorem locate_spec (lens : List Nat) {m : Nat} (hm : m < lens.sum) :
+    (locate lens m).1 < lens.length ∧ (locate lens m).2 < lens.getD (locate lens m).1 0 ∧
+      offset lens (locate lens m).1 + (locate lens m).2 = m := by
+  induction lens generalizing m with
+  | nil => simp at hm
+  | cons d ds ih =>
+    by_cases h : m < d
+    · simp [locate, h, offset]
+    · have hm' : m - d < ds.sum := by simp at hm; omega
+      obtain ⟨h1, h2, h3⟩ := ih hm'
+      simp only [locate, h, if_false]
+      refine ⟨by simp; omega, by simpa using h2, ?_⟩
+      simp only [offset, List.take_succ_cons, List.sum_cons] at h3 ⊢
+      omega
+
 end ND
 end GT
